@@ -245,6 +245,12 @@ def run(facts, rep, tier, file_filter=None, pid="C02"):
                                 passed.add(o2[1])
         unsent = [bb for bb in unsent if bb not in passed]
         allow, why = NOP_EXCEPTIONS.get(name, (0, ""))
+        if not allow and b.kind != "closure":
+            # the tabled exception follows the code when it is moved into a helper that only the excepted function calls
+            callers = {(cb_.root or n_) for n_, cb_ in mpc_bodies(facts) for _, t_ in cb_.calls() if callee_name(t_) == name}
+            if callers and all(c_ in NOP_EXCEPTIONS for c_ in callers):
+                allow, why = NOP_EXCEPTIONS[sorted(callers)[0]]
+                why += " (moved into the helper %s)" % name.split("::")[-1]
         if "/mpc/" in b.file:
             for k, bb in enumerate(nops):
                 n_nop += 1
@@ -916,7 +922,7 @@ def party_arithmetic(facts, rep, P="C02", file_filter=None):
                    "alpha_i = PRF(k_i) - PRF(k_(i+1)): key indices %s" % pairs if ok else
                    "share i of the zero sharing uses keys %s; party i holds keys i and i+1 only, so it cannot compute its own share" % pairs,
                    zb.loc(bb))
-        rep.ob(P + ".D", "recursively_generate_node_shares|alpha-found", found >= 1, "difference of two indexed PRF outputs found (%d)" % found)
+        rep.anchor(P + ".D", "recursively_generate_node_shares|difference of two indexed PRF outputs", found >= 1)
     rep.analysed["send_sites_with_evaluated_party_arithmetic"] = n
     rep.floor(P + ".D", "Send sites whose parties are a function of one index variable", n, 5 if file_filter is None else 1)
 
